@@ -24,6 +24,15 @@ def run(chk, tier):
         nrand = 80000 if thorough else 12000
         for i in range(nrand):
             progs.append(mjgen.random_program(len(progs), rnd, gen=True, maxd=2 + i % 3))
+        # uncatchable conditions raised inside a (resumed) generator body or inside an inner iterator driven by yield*
+        nf = 0
+        for p in list(progs):
+            if thorough or p["id"] % 3 == 0:
+                q = mjgen.with_fault(p, len(progs), rnd)
+                if q:
+                    progs.append(q)
+                    nf += 1
+    chk.add("fault_programs", nf)
     with phase(chk, "oracle+goja"):
         states, bad, explained = oracle.compare(chk, binp, progs, wd, "l2", DEVS, "MiniJS L2 (generators)")
     chk.setcov("programs", len(progs))
